@@ -6,7 +6,7 @@ func init() {
 	var regs []vc.Registration
 	p := &Plan{
 		ID:       "C13",
-		Patterns: []string{"./internal/ircserver"},
+		Patterns: []string{"."},
 		Assumptions: []string{
 			"regexp matching is the meaning of 'a ban matches'; HMAC is unforgeable (crypto is out of scope); the 1-minute captcha grace period is part of the check as the code defines it",
 			"the privilege for MODE is evaluated once when the command starts (isChanOp), as the code does",
